@@ -13,7 +13,9 @@ func scenarioC17(r *Run) {
 	cfg := WorldCfg{Carrier: carrier}
 	securityFor(r, carrier, &cfg)
 	cfg.Channels = []ChanCfg{{Name: "alpha", Target: "tcp://" + TargetIP + ":7001"}}
-	cfg.Listeners = []LsnCfg{{Channel: "alpha", Kind: "tcp", Addr: "127.0.0.1:6001"}}
+	cfg.Listeners = []LsnCfg{{Channel: "alpha", Kind: "tcp", Addr: "127.0.0.1:6001"},
+		// a listener for a channel the server does not offer: a neighbour that is refused
+		{Channel: "ghost", Kind: "tcp", Addr: "127.0.0.1:6003"}}
 	// One run in six: the listener has a forward address at which the target is reachable, so the client connects
 	// the application to it directly (no session, no server). Close and end-of-stream are owed on that path too.
 	direct := c.Chance(1, 6, "direct-forward")
@@ -67,6 +69,7 @@ func scenarioC17(r *Run) {
 	thinks := 0
 	bgCloses := 0
 	heavy := 0
+	refusedBg := 0
 	for i := range conns {
 		lc := &LConn{I: i, TIdx: 0, Lsn: cfg.Listeners[0], Mode: "active"}
 		if i == 0 {
@@ -89,7 +92,13 @@ func scenarioC17(r *Run) {
 		} else {
 			na, nt := 1+c.Pick(2000, "bg-app"), 1+c.Pick(2000, "bg-tgt")
 			lc.PlanA, lc.PlanT = Partition(c, na, "bg-part"), Partition(c, nt, "bg-part")
-			if !crowd && !CarrierIsKCP(carrier) && !CarrierIsDNS(carrier) && heavy < 2 && c.Chance(1, 4, "bg-heavy-paused-reader") {
+			if !direct && c.Chance(1, 5, "bg-refused-channel") {
+				// a neighbour asks for a channel the server refuses, at a moment the driver chooses: it is turned
+				// away, and that is all that happens
+				lc.Lsn = cfg.Listeners[1]
+				lc.Mode = "refused"
+				refusedBg++
+			} else if !crowd && !CarrierIsKCP(carrier) && !CarrierIsDNS(carrier) && heavy < 2 && c.Chance(1, 4, "bg-heavy-paused-reader") {
 				// a neighbour whose application does not read while its target sends 0.3-1.3 MiB (within the
 				// multiplexer's receive budget of 4 MiB): the test connection's data and end-of-stream are owed
 				// all the same
@@ -127,6 +136,10 @@ func scenarioC17(r *Run) {
 	}
 	r.Info["open_order"] = fmt.Sprint(cs.Order)
 	r.Info["background_closing"] = bgCloses
+	r.Info["background_refused"] = refusedBg
+	if refusedBg > 0 {
+		r.Count("runs_with_a_refused_neighbour")
+	}
 	r.Info["background_heavy_paused_readers"] = heavy
 	if heavy > 0 {
 		r.Count("runs_with_a_heavy_paused_neighbour")
